@@ -53,6 +53,9 @@ def run_cases(cases, res, stratum):
                 # values declared complex by an earlier resize and resized again with this string has this string's format, complex flag included
                 xr_ = fx.Fxp([1.0, 0.5], True, 16, 4); xr_.resize(dtype='fxp-s16/4-complex'); xr_.resize(dtype=fxp_str(s, n, nf, cx))
                 obs['redeclared'] = (bool(xr_.signed), int(xr_.n_word), int(xr_.n_frac), 'complex' in xr_.dtype, xr_.dtype == xr_.get_dtype())
+                # ... and an ELEMENT write of a real number into an object that is complex by declaration only: the dtype attribute follows what the object is then
+                xe_ = fx.Fxp([0.0, 0.0], s, n, nf); xe_.resize(dtype=fxp_str(s, n, nf, True)); xe_[0] = 0.0
+                obs['declared_then_elem'] = (xe_.dtype == xe_.get_dtype(), ('complex' in xe_.dtype) == (xe_.vdtype == complex))
             # the second parser of dtype strings (utils.get_sizes_from_dtype, reached through fxp_sum(dtype=...))
             try:
                 sm = fx.fxp_sum(fx.Fxp([0, 0], s, n, nf), dtype=fxp_str(s, n, nf, cx)); obs['sum_dtype'] = (bool(sm.signed), int(sm.n_word), int(sm.n_frac))
@@ -109,6 +112,8 @@ def run_cases(cases, res, stratum):
             res.fail(c, 'C12: resize(dtype=<string>) of a scaled object does not reproduce the format the string denotes (sizes, complex suffix)', expected=(s, n, nf, cx, True), got=obs['scaled_resize']); k += len(obs['parse']); continue
         if obs.get('redeclared') is not None and obs['redeclared'] != (s, n, nf, cx, True):
             res.fail(c, 'C12: resize(dtype=<string>) of an object of real values that an earlier resize had declared complex does not reproduce the format the string denotes', expected=(s, n, nf, cx, True), got=obs['redeclared']); k += len(obs['parse']); continue
+        if obs.get('declared_then_elem') is not None and obs['declared_then_elem'] != (True, True):
+            res.fail(c, 'C12: after an element write of a real number into an object declared complex by a resize, the dtype attribute is stale (it differs from get_dtype() / from the value type)', expected=(True, True), got=obs['declared_then_elem']); k += len(obs['parse']); continue
         if obs.get('elem_complex') is not None and obs['elem_complex'] != (fxp_str(s, n, nf, True), True):
             res.fail(c, 'C12: after a complex element was written into an object of real values its dtype string does not carry the complex suffix (stale attribute)', expected=(fxp_str(s, n, nf, True), True), got=obs['elem_complex']); k += len(obs['parse']); continue
         if obs.get('ctor_real') is not None and ('complex' in obs['ctor_real'][0]) != cx:
